@@ -1,6 +1,6 @@
 # C14 - generator aggregator: union of all sources, per-source order preserved
 import re
-from ..core import norm, relloc, live, calls, evs, Broken, value_origin, Tracer, fmt_trace, rooted, has_back_edge, cond_event
+from ..core import Item, norm, relloc, live, calls, evs, Broken, value_origin, Tracer, fmt_trace, rooted, has_back_edge, cond_event
 from ..rules import *
 from . import C09
 
@@ -93,10 +93,13 @@ def startup(ctx, db):
     rid = ctx.rule('C14.charge-each-once', 'COUNT+GUARDED', 'start-up: the callback vector reserves the number of sources before the emplacing loop (callbacks are published by address and must not '
                    'move); each iteration emplaces one callback and charges exactly that one (cbs.back()); the controller is created with the source count', floor=2)
     fns = db.need(AGG)
-    T = Tracer(db, depth=0, maxvisit=2, limit=20000)
+    T = htracer(db, maxvisit=2, limit=20000)
     seen_bad = None
     for f in fns:
         evl = list(f.events())
+        for lf_ in [x for e_ in f.events() if e_.k == 'lambda' for x in db.closure_instances(f, e_['fn_key'])]:
+            # a local lambda of the coroutine (auto start = [&](...) { cbs.emplace_back(...); ... }) belongs to its body; its captures are the coroutine's locals
+            evl += [Item(x, recv=(x.get('recv') or '').replace('capture:', 'local:')) if x.get('recv') else x for x in lf_.events()]
         res = [e for e in evl if e.k == 'call' and norm(e.get('callee')) == 'std::vector::reserve' and e.get('recv') == 'local:cbs']
         emp = [e for e in evl if e.k == 'call' and norm(e.get('callee')) in ('std::vector::emplace_back', 'std::vector::push_back') and e.get('recv') == 'local:cbs']
         if not emp:
@@ -160,7 +163,7 @@ def callback(ctx, db):
 def drain(ctx, db):
     rid = ctx.rule('C14.drain', 'PATHS+ORDER', 'the controller\'s destructor waits for every outstanding asynchronous source: a loop whose only exit is the test that at most one source is counted, each '
                    'iteration blocks on one completion and decrements the count by one; the controller is declared after the queue and the callbacks (destroyed before them)', floor=2)
-    T = Tracer(db, depth=0, maxvisit=3)
+    T = htracer(db, maxvisit=3)
     for f in db.need('cocls::_details::generator_aggregator_controller::~generator_aggregator_controller')[:1]:
         bad = None
         if not has_back_edge(f):
@@ -172,7 +175,7 @@ def drain(ctx, db):
                     bad = 'the drain loop has an exit that does not depend on the number of outstanding sources only (%s): a pending source may resume into a destroyed aggregate' % c.get('path')
         if not bad:
             for tr in [t for t in T.traces(f) if live(t)]:
-                loops = [i for i, it in enumerate(tr) if it.k == 'branch' and it.term == 'WhileStmt']
+                loops = [i for i, it in enumerate(tr) if it.k == 'branch' and it.term == 'WhileStmt' and it.get('depth', 0) == 0]
                 for a in range(len(loops) - 1):
                     seg = tr[loops[a]:loops[a + 1]]
                     pops = sum(1 for it in seg if it.k == 'call' and norm(it.get('callee')) == 'cocls::queue::pop')
